@@ -347,6 +347,11 @@ func (x *Exec) builtin(e *ast.CallExpr, st *State, name string) Value {
 		p := x.alloc(st, "new")
 		if pt, ok := t.Underlying().(*types.Pointer); ok {
 			x.heapStoreStruct(st, pt.Elem(), p, x.zero(pt.Elem()))
+			if types.TypeString(pt.Elem(), nil) == "bytes.Buffer" {
+				// a new bytes.Buffer has been written nothing: its stream
+				// ghosts (#wlen ...) start at zero
+				x.zeroGhosts(st, p)
+			}
 		}
 		return Sc{p}
 	case "append":
